@@ -53,6 +53,12 @@ MUTANTS = [
     ('arr-update-core-untransposed-system', 'scikit_tt/data_driven/regression.py', "lin.lstsq(micro_matrix.T, rhs, cond=rcond, lapack_driver='gelss')", "lin.lstsq(micro_matrix, rhs, cond=rcond, lapack_driver='gelss')", 'fn:__arr_update_core', ''),
     ('arr-update-core-splits-rows-wrongly', 'scikit_tt/data_driven/regression.py', "        # save orthonormal part\n        solution.cores[i] = q.reshape(solution.ranks[i], solution.row_dims[i], 1, solution.ranks[i + 1])", "        # save orthonormal part\n        solution.cores[i] = q.reshape(solution.row_dims[i], solution.ranks[i], 1, solution.ranks[i + 1]).transpose([1, 0, 2, 3])", 'fn:__arr_update_core', ''),
     ('arr-update-core-backward-rank-slot', 'scikit_tt/data_driven/regression.py', "            solution.ranks[i] = q.shape[0]", "            solution.ranks[i] = q.shape[1]", 'fn:__arr_update_core', ''),
+    ('full-axes-repeated', F, "q = [2 * i for i in range(self.order)] + [1 + 2 * i for i in range(self.order)]", "q = [2 * i for i in range(self.order)] + [2 * i for i in range(self.order)]", 'TT.full', 'transpose-axes-distinct'),
+    ('full-column-modes-first', F, "q = [2 * i for i in range(self.order)] + [1 + 2 * i for i in range(self.order)]", "q = [1 + 2 * i for i in range(self.order)] + [2 * i for i in range(self.order)]", 'TT.full', 'post:row-modes-first'),
+    ('full-interleave-swapped', F, "        p[::2] = self.row_dims\n        p[1::2] = self.col_dims", "        p[::2] = self.col_dims\n        p[1::2] = self.row_dims", 'TT.full', 'post:row-modes-first'),
+    ('full-sweep-reshape-off-by-one', F, "full_tensor = full_tensor.reshape(np.prod(self.row_dims[:i + 1]) * np.prod(self.col_dims[:i + 1]),", "full_tensor = full_tensor.reshape(np.prod(self.row_dims[:i]) * np.prod(self.col_dims[:i + 1]),", 'TT.full', 'reshape-size'),
+    ('full-no-boundary-check', F, "        if self.ranks[0] != 1 or self.ranks[-1] != 1:\n            raise ValueError(\"The first and last rank have to be 1!\")\n\n        # reshape first core", "        # reshape first core", 'TT.full', ''),
+    ('full-transpose-as-function (harmless)', F, "full_tensor = full_tensor.reshape(p).transpose(q)", "full_tensor = full_tensor.reshape(p)\n        full_tensor = full_tensor.transpose(q)", 'TT.full', None),
 ]
 
 
